@@ -225,6 +225,24 @@ pub fn observe(case: &Value) -> Value {
                                 },
                                 Err(e) => (false, e.to_string()),
                             };
+                            // the text decoded by a generic YAML reader (not the dump's own
+                            // Deserialize): the plain index / register lists of every node
+                            let mut ydata = vec![];
+                            if let Ok(serde_yaml::Value::Sequence(items)) = serde_yaml::from_str::<serde_yaml::Value>(&y) {
+                                for it in items {
+                                    let mut rec = Map::new();
+                                    for key in ["nexts", "prevs", "live_in", "live_out", "u_def", "func_entry", "func_exit"] {
+                                        let list: Vec<i64> = it
+                                            .get(key)
+                                            .and_then(|v| v.as_sequence())
+                                            .map(|s| s.iter().filter_map(serde_yaml::Value::as_i64).collect())
+                                            .unwrap_or_default();
+                                        rec.insert(key.to_string(), json!(list));
+                                    }
+                                    ydata.push(Value::Object(rec));
+                                }
+                            }
+                            out.insert("ydata".into(), json!(ydata));
                             out.insert("yaml".into(), json!(y));
                             out.insert("yaml_rt".into(), json!(ok));
                             out.insert("yaml_err".into(), json!(msg));
